@@ -24,6 +24,7 @@ type failureOut struct {
 	Choices   []decOut          `json:"choices,omitempty"`
 	Known     []string          `json:"known,omitempty"`
 	Stack     []string          `json:"stack,omitempty"`
+	Blocked   []string          `json:"blocked,omitempty"`
 }
 
 type decOut struct {
@@ -69,7 +70,7 @@ func main() {
 		maxInstr = flag.Int("max-instr", 2000000, "instruction budget per path")
 		maxTrans = flag.Int("max-trans", 5000, "transition budget per path")
 		maxSt    = flag.Int64("max-states", 20000000, "scheduling state budget")
-		maxFail  = flag.Int("max-failures", 10, "stop after this many distinct failures")
+		maxFail  = flag.Int("max-failures", 40, "stop after this many distinct failures")
 		seed     = flag.Int64("seed", 0, "exploration order seed")
 		wall     = flag.Duration("wall", 0, "wall clock budget")
 		open     = flag.String("open", "", "comma separated open known-finding ids")
@@ -78,6 +79,7 @@ func main() {
 		debug    = flag.Bool("debug", false, "crash on engine panics")
 		trace    = flag.Bool("trace", false, "print vTrace output")
 		samples  = flag.Int("samples", 3, "sample paths to record")
+		nopor    = flag.Bool("nopor", false, "disable the persistent-set reduction")
 	)
 	flag.Parse()
 	t0 := time.Now()
@@ -103,6 +105,7 @@ func main() {
 		Debug:           *debug,
 		Trace:           *trace,
 		SamplePaths:     *samples,
+		NoPOR:           *nopor,
 	}
 	if *diff != "" {
 		cfg.DiffSolvers = strings.Split(*diff, ",")
@@ -153,7 +156,7 @@ func main() {
 	}
 	res := eng.Results()
 	conv := func(f *symgo.Failure) failureOut {
-		fo := failureOut{Kind: f.Kind, ID: f.ID, Pos: f.Pos, Detail: f.Detail, Model: f.Model, Known: f.Known, Stack: f.Stack}
+		fo := failureOut{Kind: f.Kind, ID: f.ID, Pos: f.Pos, Detail: f.Detail, Model: f.Model, Known: f.Known, Stack: f.Stack, Blocked: f.Blocked}
 		for _, d := range f.Decs {
 			fo.Decisions = append(fo.Decisions, fmt.Sprintf("%s:%s=%d", d.Kind, d.Desc, d.Val))
 			if d.Kind != "sched" {
@@ -180,7 +183,7 @@ func main() {
 	out.Stats = map[string]interface{}{
 		"paths_finished": res.PathsFinished, "paths_pruned": res.PathsPruned, "sleep_blocked": res.SleepBlocked,
 		"cache_hits": res.CacheHits, "states": res.States, "transitions": res.Transitions, "forks": res.Forks,
-		"instructions": res.Instrs, "unknown_branches": res.UnknownBranches, "model_hits": res.ModelHits, "max_depth": res.MaxDepth,
+		"instructions": res.Instrs, "unknown_branches": res.UnknownBranches, "model_hits": res.ModelHits, "por_reduced_states": res.PORReduced, "por_proviso_expansions": res.PORProviso, "por": !cfg.NoPOR, "max_depth": res.MaxDepth,
 		"workers": cfg.Workers, "stateful": cfg.Stateful, "sleep_sets": !cfg.NoSleep, "race_monitor": cfg.Race,
 	}
 	out.Solver = eng.SolverStats()
